@@ -1,1 +1,123 @@
-import AutomataVerif.Model.PDA
+/-
+Props/C02.lean — C02: pushdown acceptance: NPDA explores all runs; DPDA is deterministic
+and agrees.
+
+English statement (properties.jsonl): an NPDA accepts a string exactly when some sequence
+of its moves consumes the whole string and ends in a configuration that is accepting under
+the chosen acceptance mode (final state, empty stack, or either), the start configuration
+included; its step-by-step reader yields, level by level, exactly the configurations
+reachable in that many moves.  A DPDA definition is accepted by the constructor exactly
+when no configuration can have two applicable moves, and on every string a DPDA gives the
+same verdict as the NPDA with the same transition table.  Quantifier: all valid PDA
+transition tables whose epsilon-moves cannot run forever, all three acceptance modes, all
+strings; determinism validation for all tables, valid or not.
+
+Reference semantics: `Spec/PDA.lean` — `Step Δ c c'` (one move of the table's move relation
+`Δ`), `StepN Δ k c c'` (exactly `k` moves), `Accepting mode F c`.  The model of the code is
+`Model/PDA.lean`.  Both readers may run forever on λ-cycles; the model takes `fuel` (loop
+iterations) and answers `Outcome.outOfFuel` when it runs out.  "The reader accepts" is
+`∃ fuel, outcome = returned`, "rejects" is `∃ fuel, outcome = raised RejectionException`;
+decided runs do not depend on the fuel (`C02_npda_fuel_monotone`, `C02_dpda_fuel_monotone`).
+-/
+import AutomataVerif.Proofs.PdaNpda
+
+namespace AV.Props.C02
+open AV AV.PDA
+
+variable {σ α γ τ : Type} [DecidableEq σ] [DecidableEq α] [DecidableEq γ]
+
+/-! ## Acceptance test and stack discipline -/
+
+/-- `_has_accepted` is the specification's `Accepting` for each of the three acceptance-mode
+literals.  The literals and the tests attached to them are read from the source on every
+run (`Generated/Pda.lean`), so an edit of `_has_accepted` breaks this theorem. -/
+theorem C02_has_accepted_iff (M : Table σ α γ τ) (m : AccMode) (hm : M.mode = m.literal)
+    (c : Config σ α γ) : M.hasAccepted c = true ↔ Accepting m M.finals c :=
+  hasAccepted_iff M m hm c
+
+/-- The acceptance modes that validate are exactly the three literals. -/
+theorem C02_valid_modes (s : String) : s ∈ Gen.Pda.validModes ↔ ∃ m : AccMode, s = m.literal := by
+  constructor
+  · intro h
+    simp only [Gen.Pda.validModes, List.mem_cons, List.not_mem_nil, or_false] at h
+    rcases h with h | h | h
+    · exact ⟨.finalState, h⟩
+    · exact ⟨.emptyStack, h⟩
+    · exact ⟨.both, h⟩
+  · rintro ⟨m, rfl⟩; cases m <;> simp [Gen.Pda.validModes, AccMode.literal]
+
+/-- `_replace_stack_top` on a stack with top `X`: the top is replaced by the pushed string and
+the FIRST pushed symbol becomes the new top (an empty push pops). -/
+theorem C02_replace_stack_top (β push : List γ) (X : γ) :
+    replaceStackTop (β ++ [X]) push = β ++ push.reverse ∧
+    (∀ Y rest, push = Y :: rest → Stack.top (replaceStackTop (β ++ [X]) push) = some Y) ∧
+    (push = [] → replaceStackTop (β ++ [X]) push = β) := by
+  refine ⟨replaceStackTop_concat β push X, ?_, ?_⟩
+  · rintro Y rest rfl
+    rw [replaceStackTop_concat, List.reverse_cons, ← List.append_assoc, Stack.top_concat]
+  · rintro rfl; simp
+
+/-! ## NPDA -/
+
+/-- `_get_next_configurations(c)` is exactly the set of configurations one move away from `c`
+(an empty stack has no move). -/
+theorem C02_npda_next_iff (M : NPDA σ α γ) (c c' : Config σ α γ) :
+    c' ∈ M.nextConfigs c ↔ Step M.moves c c' :=
+  M.mem_nextConfigs c c'
+
+/-- The step-by-step reader of an NPDA, for every table, mode, word and fuel.
+With `ys` the yielded sets, `Lv k` the configurations reachable from the start configuration
+in exactly `k` moves and `Acc` the accepting configurations:
+(a) the `k`-th yielded set is exactly `Lv k`;
+(b) the start level is always yielded, and at most `fuel` further levels;
+(c) the reader goes past a level only if that level is non-empty and contains no accepting
+    configuration — so it stops at the FIRST level that contains an accepting configuration;
+(d) it returns (accepts) iff the last yielded level contains an accepting configuration;
+(e) it raises `RejectionException` iff the last yielded level is empty;
+(f) it runs out of fuel iff it has yielded `fuel + 1` levels;
+(g) it raises nothing but `RejectionException`. -/
+theorem C02_npda_stepwise (M : NPDA σ α γ) (m : AccMode) (hm : M.mode = m.literal)
+    (fuel : Nat) (w : List α) :
+    let ys := (M.readStepwise fuel w).1
+    let out := (M.readStepwise fuel w).2
+    let Lv := fun (k : Nat) (c : Config σ α γ) => StepN M.moves k (M.start w) c
+    let Acc := Accepting m M.finals
+    (∀ k L, ys[k]? = some L → ∀ c, c ∈ L ↔ Lv k c) ∧
+    (1 ≤ ys.length ∧ ys.length ≤ fuel + 1) ∧
+    (∀ k, k + 1 < ys.length → (∃ c, Lv k c) ∧ ∀ c, Lv k c → ¬ Acc c) ∧
+    (out = .returned ↔ ys.length ≤ fuel ∧ ∃ c, Lv (ys.length - 1) c ∧ Acc c) ∧
+    (out = .raised (.lib .rejectionException) ↔ ys.length ≤ fuel ∧ ¬ ∃ c, Lv (ys.length - 1) c) ∧
+    (out = .outOfFuel ↔ ys.length = fuel + 1) ∧
+    (∀ e, out = .raised e → e = .lib .rejectionException) := by
+  intro ys out Lv Acc
+  have S := M.run_spec (M.start w) fuel 0 [M.start w] (by intro c; simp [stepN_zero_iff])
+  have hys : ys = [M.start w] :: (M.run fuel [M.start w]).1 := rfl
+  have hout : out = (M.run fuel [M.start w]).2 := rfl
+  have hlen : ys.length = (M.run fuel [M.start w]).1.length + 1 := by rw [hys]; rfl
+  have hacc : ∀ c, M.hasAccepted c = true ↔ Acc c := fun c => hasAccepted_iff M m hm c
+  refine ⟨?_, ⟨by omega, by have := S.len; omega⟩, ?_, ?_, ?_, ?_, ?_⟩
+  · intro k L hL c
+    cases k with
+    | zero =>
+      rw [hys] at hL; simp at hL; subst hL
+      simp [Lv, stepN_zero_iff]
+    | succ k =>
+      rw [hys, List.getElem?_cons_succ] at hL
+      have := S.level k L hL c
+      simpa [Lv, Nat.add_comm] using this
+  · intro k hk
+    have := S.before k (by omega)
+    simp only [Nat.zero_add] at this
+    refine ⟨this.1, fun c hc hA => ?_⟩
+    have h1 := this.2 c hc
+    rw [(hacc c).mpr hA] at h1; cases h1
+  · rw [hout, S.returned, hlen]
+    simp only [Nat.zero_add, Nat.add_sub_cancel, Nat.succ_le_iff, hacc]
+    rfl
+  · rw [hout, S.rejected, hlen]
+    simp only [Nat.zero_add, Nat.add_sub_cancel, Nat.succ_le_iff]
+    rfl
+  · rw [hout, S.fuelOut, hlen]; omega
+  · rw [hout]; exact S.onlyRej
+
+end AV.Props.C02
